@@ -241,7 +241,11 @@ Record submit_case := {
          expected by the oracle contract: Some (MiMC(shard hash) == double hash mod q) for a
          proof made by the honest prover for that shard hash, Some false for a forged proof,
          None when no expectation applies) *)
-  su_obs : res unit                         (* Msg/SubmitValidityProof result *)
+  su_obs : res unit;                        (* Msg/SubmitValidityProof result *)
+  su_stored : option (list Z * list Z)
+     (* the Proof record found in the store for (this data, this validator) after the call:
+        its indices and its proofs (as pool ids; -1 = bytes that are no pool proof); None = no
+        record.  The data item is fresh for every case, so there is none before the call. *)
 }.
 
 Fixpoint lookup_parse (t : list (Z * bool)) (p : Z) : option bool :=
@@ -298,10 +302,23 @@ Definition submit_pred (c : submit_case) (guard : bool) : res unit :=
 (* The repository is in transit between the two variants of the index check (the repair is
    proposed by this property and by C15): the observation must equal the prediction of one of
    them.  Every theorem of Props/C20.v about the handler holds for both. *)
+Definition stored_eqb (a b : option (list Z * list Z)) : bool :=
+  match a, b with
+  | None, None => true
+  | Some (i1, p1), Some (i2, p2) => zlist_eqb i1 i2 && zlist_eqb p1 p2
+  | _, _ => false
+  end.
+
+(* the record the handler writes: the message's indices and proofs on success, nothing otherwise *)
+Definition stored_pred (c : submit_case) (guard : bool) : option (list Z * list Z) :=
+  if is_ok (submit_pred c guard) then Some (su_indices c, su_proofs c) else None.
+
 Definition submit_corr (c : submit_case) : bool :=
   tables_cover c (su_indices c) (su_proofs c) &&
-  (res_eqb unit_eqb (submit_pred c false) (norm_err (su_obs c)) ||
-   res_eqb unit_eqb (submit_pred c true) (norm_err (su_obs c))).
+  ((res_eqb unit_eqb (submit_pred c false) (norm_err (su_obs c)) &&
+    stored_eqb (stored_pred c false) (su_stored c)) ||
+   (res_eqb unit_eqb (submit_pred c true) (norm_err (su_obs c)) &&
+    stored_eqb (stored_pred c true) (su_stored c))).
 
 (* trigger 3 (informational): the unguarded variant was observed (negative index -> panic) *)
 Definition trig_neg_index_panic (c : submit_case) : bool :=
@@ -325,6 +342,16 @@ Fixpoint accept_b (c : submit_case) (indices proofs : list Z) : bool :=
 (* monitor 7: the message is accepted iff every (proof_i, hash[index_i]) pair verifies *)
 Definition mon_accept_iff (c : submit_case) : bool :=
   Bool.eqb (is_ok (su_obs c)) (accept_b c (su_indices c) (su_proofs c)).
+
+(* monitor 9, on the stored result: every (index, proof) of a stored record verifies against
+   THAT shard's double hash; a message containing any pair that does not leaves no record *)
+Definition mon_stored (c : submit_case) : bool :=
+  match su_stored c with
+  | Some (is', ps') => accept_b c is' ps'
+  | None => true
+  end &&
+  (if accept_b c (su_indices c) (su_proofs c) then true
+   else match su_stored c with None => true | Some _ => false end).
 
 (* monitor 8: groth16 verification agrees with the oracle contract
    (verifies iff double hash == MiMC(shard hash); forged proofs never verify) *)
@@ -352,6 +379,7 @@ Definition c20_check (c : c20_case) : list Z :=
   | CShuf c => flag 0 (shuf_corr c) ++ flag 5 (mon_indices c) ++ flag 6 (mon_deterministic c) ++
                flag 102 (negb (trig_long_address c))
   | CSubmit c => flag 0 (submit_corr c) ++ flag 7 (mon_accept_iff c) ++ flag 8 (mon_oracle c) ++
+                 flag 9 (mon_stored c) ++
                  flag 103 (negb (trig_neg_index_panic c))
   end.
 
